@@ -338,7 +338,7 @@ fn cfg_is_live(json_text: &str) -> bool {
 }
 
 /// statements whose diagnostics depend on the settings
-const AS_SENS: [&str; 12] = ["ONERR GOTO 100", "ONERR GOTO 100: REM TRAP ERRORS", "ONERR GOTO 100: PRINT 1: REM AND MORE", "PRINT UNDEF1", "ARR(3) = 1", "print \"lower\"", "GOTO 31999", "PRINT \"UNTERM", "CALL 768,A,B", "GREEN = 1: GREAT = 2",
+const AS_SENS: [&str; 9] = ["PRINT UNDEF1", "ARR(3) = 1", "print \"lower\"", "GOTO 31999", "PRINT \"UNTERM", "CALL 768,A,B", "GREEN = 1: GREAT = 2",
     "A$ = \"X\": Print A$", "GOSUB 31998: Q(1,2) = Q2"];
 const IB_SENS: [&str; 8] = ["PRINT UNDEF1", "ARR(3) = 1", "print \"lower\"", "GOTO 31999", "PRINT Q$", "Q(5) = Q2", "GOSUB 31998",
     "REM A LONG LINE TO TRIGGER THE LENGTH WARNING: PRINT \"0123456789012345678901234567890123456789\""];
@@ -399,7 +399,7 @@ const ME_PSOPS: [&str; 46] = ["ORG", "EQU", "=", "DS", "HEX", "ASC", "DCI", "INV
     "MAC", "<<<", "EOM", "PMC", ">>>", "PUT", "USE", "XC", "MX", "REL", "ENT", "EXT", "DUM", "DEND", "END", "LST", "TYP", "SAV", "DSK", "CHK", "ERR", "VAR"];
 const ME_ODD_OPERANDS: [&str; 28] = ["", ":X", ":X+1", "]V", "]1", "#", "#:X", ",", ";", "\"", "'", "\"AB", "'A", "GG", "0", "%2", "$", "$G", "(", ")", "<", "-:X", ":X-:Y", "*", "*-:X", "1;2", "X,", "OFF"];
 /// BASIC statements with missing or odd operands
-const BAS_ODD: [&str; 30] = ["PRINT ,", "GOTO", "GOSUB", "FOR", "FOR I", "FOR I =", "NEXT ,", "DIM", "DIM A(", "DEF FN", "DEF FN A", "DEF FN A(", "ON GOTO", "ON X GOSUB", "POKE", "POKE 1", "CALL",
+const BAS_ODD: [&str; 33] = ["ONERR GOTO 100", "ONERR GOTO 100: REM TRAP ERRORS", "ONERR GOTO 100: PRINT 1: REM AND MORE", "PRINT ,", "GOTO", "GOSUB", "FOR", "FOR I", "FOR I =", "NEXT ,", "DIM", "DIM A(", "DEF FN", "DEF FN A", "DEF FN A(", "ON GOTO", "ON X GOSUB", "POKE", "POKE 1", "CALL",
     "IF THEN", "IF A THEN", "LET =", "= 1", "DATA", "READ", "INPUT", "INPUT \"", "GET", "&", "HPLOT TO", "TAB(", "A$(1,"];
 
 /// broken / odd documents; `k` selects the kind
@@ -794,6 +794,26 @@ fn fixed_cases(lang: Lang, base: usize, rng: &mut Rng) -> Vec<Case> {
     let steps = vec![(0, Act::Open { d: 0, ver: 1705, t: 0 }), (30, Act::Change { d: 0, ver: 1706, t: 1 }), (30, Act::Change { d: 0, ver: 1707, t: 2 }), (150, Act::Close { d: 0 }),
         (50, Act::Open { d: 0, ver: 1001, t: 3 }), (100, Act::Change { d: 0, ver: 1002, t: 4 }), (0, Act::Req { kind: 2, d: 0, line: 0, ch: 0 }), (100, Act::Change { d: 0, ver: 1003, t: 5 })];
     out.push(Case { lang, idx: base + 14, steps, texts, cfgs: no_cfg(), sched: vec![], initial_cfg: None, poison: false, burst: false, max_latency: None });
+    // (n) every statement kind of the pool followed by a remark on the same line (BASIC `: REM …`, Applesoft also
+    //     `ONERR GOTO n` followed by a remark / by statements; Merlin a trailing `; comment`): the analysis of such a
+    //     text must come back, and the documents edited afterwards must still get their diagnostics
+    let remarks = |t: usize| -> String {
+        let mut s = String::new();
+        match lang {
+            Lang::Applesoft => {
+                s.push_str("10 ONERR GOTO 900: REM TRAP DISK ERRORS\n20 ONERR GOTO 900: PRINT 1: REM AND MORE\n30 ONERR GOTO 900\n");
+                for (i, l) in AS_STMTS.iter().enumerate() { if !l.contains("REM") && !l.contains("DATA") { s.push_str(&format!("{} {}: REM NOTE {}\n", 100 + 10 * i, l.replace("FN F(", "FN CUBE(").replace("LONGV", "BLUE"), i)); } }
+                s.push_str("900 END: REM DONE\n");
+            }
+            Lang::Integer => for (i, l) in IB_STMTS.iter().enumerate() { if !l.contains("REM") { s.push_str(&format!("{} {}: REM NOTE {}\n", 100 + 10 * i, l.replace("LONGV", "BLUE"), i)); } },
+            Lang::Merlin => for (i, l) in ME_LINES.iter().enumerate() { if !l.starts_with('*') { s.push_str(&format!("{} ; note {}\n", l, i)); } },
+        }
+        tag_text(lang, t, s)
+    };
+    let texts = vec![remarks(0), mk(1, rng), mk(2, rng), remarks(3)];
+    let steps = vec![(0, Act::Open { d: 0, ver: 1001, t: 0 }), (100, Act::Open { d: 1, ver: 2001, t: 1 }), (100, Act::Change { d: 0, ver: 1002, t: 2 }), (0, Act::Req { kind: 2, d: 1, line: 0, ch: 0 }),
+        (50, Act::Change { d: 1, ver: 2002, t: 3 })];
+    out.push(Case { lang, idx: base + 15, steps, texts, cfgs: no_cfg(), sched: vec![], initial_cfg: None, poison: false, burst: false, max_latency: None });
     // ---- history ----
     // (l) every kind of earlier text (other versions of the document, another open document), analysed in and
     //     out of launch order, then the final texts; under the defaults and under one settings object
@@ -1036,8 +1056,16 @@ fn watchdog<T: Send + 'static>(limit_ms: u64, f: impl FnOnce() -> T + Send + 'st
         Err(_) => Err(format!("HANG analysis did not return within {} ms", limit_ms)),
     }
 }
-fn hang_limit(len: usize) -> u64 { 30_000 + 20 * len as u64 }
+/// normal analyses of the texts used here take milliseconds; the slowest kind (one huge line) is super-linear,
+/// hence the per-byte share
+fn hang_limit(len: usize) -> u64 { 10_000 + 5 * len as u64 }
 fn is_hang(e: &str) -> bool { e.starts_with("HANG") }
+/// Every analysis that does not return leaves a spinning thread behind and costs the whole time limit: after
+/// three of them per language the in-process references for that language are switched off for the rest of
+/// the run (three concrete inputs have been reported by then; the real servers are still driven).
+static HANGS: [std::sync::atomic::AtomicUsize; 3] = [std::sync::atomic::AtomicUsize::new(0), std::sync::atomic::AtomicUsize::new(0), std::sync::atomic::AtomicUsize::new(0)];
+fn note_hang(lang: Lang) { HANGS[lang.idx()].fetch_add(1, std::sync::atomic::Ordering::SeqCst); }
+fn too_many_hangs(lang: Lang) -> bool { HANGS[lang.idx()].load(std::sync::atomic::Ordering::SeqCst) >= 3 }
 
 /// Diagnostics as a JSON value, with the one hash-order dependent text made canonical: the Applesoft
 /// collision message lists the colliding names in `HashSet` iteration order, which differs from analysis
@@ -1119,8 +1147,9 @@ impl<'a> Fresh<'a> {
         // a text on which the analysis did not return is not tried again under other settings
         if let Some(e) = self.hung.get(&t) { return Err(e.clone()); }
         if !self.memo.contains_key(&(t, cfg)) {
+            if too_many_hangs(case.lang) { return Err("SKIPPED in-process reference switched off after three analyses that did not return".to_string()); }
             let r = inproc_diags(case.lang, &case.cfgs[cfg], &uri_of(case.lang, case.idx, d), &case.texts[t], ws_folder_uri(case.idx));
-            if let Err(e) = &r { if is_hang(e) { self.hung.insert(t, e.clone()); } }
+            if let Err(e) = &r { if is_hang(e) { self.hung.insert(t, e.clone()); note_hang(case.lang); } }
             self.memo.insert((t, cfg), r);
         }
         self.memo.entry((t, cfg)).or_insert_with(|| inproc_diags(case.lang, &case.cfgs[cfg], &uri_of(case.lang, case.idx, d), &case.texts[t], ws_folder_uri(case.idx))).clone()
@@ -1414,7 +1443,7 @@ fn judge_case(case: &Case, obs: &Obs) -> Rep {
         let t = text_of_version(&sent, d, ver.unwrap_or(-1));
         // (documents in an on-disk workspace: the server's scan data is not part of the model; their
         //  publications are judged by the final oracle only)
-        let k = match t { 99999 => None, _ if ws_dir(case.idx).is_some() => None, t => Some(fresh.candidates(d, t, &canon_str(diags))) };
+        let k = match t { 99999 => None, _ if ws_dir(case.idx).is_some() || too_many_hangs(case.lang) => None, t => Some(fresh.candidates(d, t, &canon_str(diags))) };
         if let Some(c) = &k {
             if c.is_empty() { out.count("publication:matches-no-settings"); }
             else if c.len() < case.cfgs.len() { out.count("publication:settings-distinguishable"); }
@@ -1427,7 +1456,8 @@ fn judge_case(case: &Case, obs: &Obs) -> Rep {
     // return on that job's text either.
     if obs.hung.is_empty() { out.oracle(true, "analysis-finishes", "-", &format!("idx={}", case.idx)); }
     else {
-        let mut confirmed = false;
+        // (after three confirmed hangs of this language in this run the library reference is switched off)
+        let mut confirmed = too_many_hangs(case.lang);
         for (_, uri, ver, _) in &obs.hung {
             if let Some(d) = uri_idx(uri) { let t = text_of_version(&sent, d, *ver); if t != 99999 { if let Err(e) = fresh.get(d, t, 0) { if is_hang(&e) { confirmed = true; } } } }
         }
@@ -1488,6 +1518,7 @@ fn judge_case(case: &Case, obs: &Obs) -> Rep {
                         }
                         Ok(None) => out.count("fresh:library-analysis-returned-err-but-server-published"),
                         Err(e) if is_hang(&e) => out.oracle(false, "equals-fresh-analysis", &format!("c18/{}/analysis-never-finishes", srv), &format!("{} doc={} {}", desc, d, e)),
+                        Err(e) if e.starts_with("SKIPPED") => out.count("fresh:library-reference-switched-off-after-hangs"),
                         Err(e) => out.oracle(false, "equals-fresh-analysis", &inproc_panic_sig(&e), &format!("{} doc={} panic={}", desc, d, e.chars().take(200).collect::<String>())),
                     }
                     match fresh_srv.clone() {
@@ -1502,7 +1533,9 @@ fn judge_case(case: &Case, obs: &Obs) -> Rep {
                         None => out.oracle_t(false, "equals-fresh-server", &format!("c18/{}/fresh-server-publishes-nothing", srv), &format!("{} doc={}", desc, d)),
                     }
                 }
-                Some(p) => out.oracle_t(false, "last-is-latest", &format!("c18/{}/stale-diagnostics-after-burst", srv),
+                // (a last publication with a HIGHER version than the last one sent: the document was re-opened with
+                //  restarted version numbers and the new versions never got diagnostics)
+                Some(p) => out.oracle_t(false, "last-is-latest", &format!("c18/{}/{}", srv, if p.2.unwrap_or(-1) > *ver { "no-diagnostics-after-reopen-with-lower-version" } else { "stale-diagnostics-after-burst" }),
                     &format!("{} doc={} last-published-version={:?} last-sent={}", desc, d, p.2, ver)),
                 None => out.oracle_t(false, "last-is-latest", &format!("c18/{}/no-diagnostics-for-document", srv), &format!("{} doc={} last-sent={}", desc, d, ver)),
             }
@@ -1676,13 +1709,17 @@ pub fn run(ctx: &mut Ctx) {
             let mut r = rng.fork(idx as u64);
             let (text, kind) = odd_text(lang, k, &mut r);
             if !ctx.out.wants(idx) { continue; }
+            if too_many_hangs(lang) { ctx.out.count("odd-inproc:skipped-after-three-hangs"); if docs.len() < n_odd && k < n_odd { docs.push((idx, text, kind, Ok(true))); } continue; }
             let t_in = Instant::now();
             let inproc = analyze_in_process(lang, &text, 0);
+            if matches!(&inproc, Err(e) if is_hang(e)) { note_hang(lang); }
             // the same text under the two extreme settings (severity `None` / everything an error)
             for cfg in 1..3 {
                 if (k + cfg) % 4 != 0 && !ctx.tier_thorough { continue; }
+                if matches!(&inproc, Err(e) if is_hang(e)) { continue; }
                 if let Err(p) = analyze_in_process(lang, &text, cfg) {
-                    ctx.out.oracle(false, "odd-document-analysed-under-settings", &inproc_panic_sig(&p),
+                    if is_hang(&p) { note_hang(lang); }
+                    ctx.out.oracle(false, "odd-document-analysed-under-settings", &if is_hang(&p) { format!("c18/{}/analysis-never-finishes", lang.name()) } else { inproc_panic_sig(&p) },
                         &format!("idx={} srv={} kind={} settings={} panic={}", idx, lang.name(), kind, if cfg == 1 { "ignore-all" } else { "error-all" }, p.chars().take(200).collect::<String>()));
                 } else { ctx.out.count("odd-inproc:settings-variant-ok"); }
             }
